@@ -141,7 +141,11 @@ def real_run(root, n, workers, steps, seed, moves=None, cap=None, kills=(), slee
     """A whole history: a fresh run, killed after kills[0] seconds, restarted, killed after kills[1], ..., then run to the end
     (and, with more > 0, continued for `more` further steps).  Returns {"events": [...], "problems": [...], "lifetimes": [...]}."""
     sysdrv.cleanup(root)
-    sysdrv.build_rundir(root, n, workers, steps, seed=seed, moves=moves, cap=cap, sleep=sleep, screen=0, **kw)
+    if kw.pop("turtle", False):      # the repository's TurtleMD double-well example (8 ensembles) instead of the lattice plug-in
+        from harness import turtlerun
+        turtlerun.build(root, seed, steps, moves or ["sh", "sh", "wf", "wf", "wf", "wf", "wf", "wf"], workers=workers)
+    else:
+        sysdrv.build_rundir(root, n, workers, steps, seed=seed, moves=moves, cap=cap, sleep=sleep, screen=0, **kw)
     evp = os.path.join(root, "real_events.jsonl")
     out = {"events": [], "problems": [], "lifetimes": []}
     inp = "infretis.toml"
